@@ -142,7 +142,7 @@ CALLBACK_PORTS = ["    cb_r = Port.output(Bit, default=False)", "    cb_f = Port
 CALLBACK_DEFS = ["        def on_rising():", "            self.cb_r ^= True", "        def on_falling():", "            self.cb_f ^= True"]
 
 
-def toggle_design(first, second, default_state, first_state, callbacks=False):
+def toggle_design(first, second, default_state, first_state, callbacks=False, enable_api=False):
     args = [str(first)] + ([str(second)] if second is not None else [])
     if default_state:
         args.append("default_state=True")
@@ -154,10 +154,23 @@ def toggle_design(first, second, default_state, first_state, callbacks=False):
              "    state = Port.output(Bit)", "    rising = Port.output(Bit)", "    falling = Port.output(Bit)"] + (CALLBACK_PORTS if callbacks else []) + ["    def architecture(self):"] + \
             (CALLBACK_DEFS if callbacks else []) + [
              "        ctx = std.SequentialContext(std.Clock(self.clk))",
-             f"        t = std.ToggleSignal(ctx, {', '.join(args)})",
-             "        std.concurrent_assign(t.get_reset_signal(), self.rst_toggle)",
+             f"        t = std.ToggleSignal(ctx, {', '.join(args + (['require_enable=True'] if enable_api else []))})"] + \
+            (["        @ctx", "        def control():", "            if self.rst_toggle:", "                t.disable()", "            else:", "                t.enable()"] if enable_api else
+             ["        std.concurrent_assign(t.get_reset_signal(), self.rst_toggle)"]) + [
              "        @std.concurrent", "        def logic():", "            self.state <<= t.state()", "            self.rising <<= t.rising()", "            self.falling <<= t.falling()"]
     return "\n".join(lines) + "\n"
+
+
+class EnableApi:
+    """mixin: the counter reset is a register written by enable() / disable() from another process of the same clock
+    (initially set: require_enable=True); the monitor of the directly driven variant sees the registered value"""
+
+    def step(self, i, ins, outs):
+        if not hasattr(self, "_rst_reg"):
+            self._rst_reg = 1
+        name = self.RST
+        super().step(i, {**ins, name: self._rst_reg}, outs)
+        self._rst_reg = ins[name]
 
 
 class ToggleMonitor(Monitor):
@@ -190,8 +203,12 @@ class ToggleMonitor(Monitor):
             self.check(D.b_eq(bit(outs["cb_f"]), falling), "on_falling callback not executed exactly with the 1->0 transition")
 
 
+class ToggleEnableMonitor(EnableApi, ToggleMonitor):
+    RST = "rst_toggle"
+
+
 # ------------------------------------------------------------------ ClockDivider with integer ratios (reference = upstream MockClkDivider)
-def clkdiv_design(ratio, default_state, tick_at_start, callbacks, runtime=False):
+def clkdiv_design(ratio, default_state, tick_at_start, callbacks, runtime=False, enable_api=False):
     args = ["self.r" if runtime else str(ratio)]
     if default_state:
         args.append("default_state=True")
@@ -203,8 +220,9 @@ def clkdiv_design(ratio, default_state, tick_at_start, callbacks, runtime=False)
              "    state = Port.output(Bit)", "    rising = Port.output(Bit)", "    falling = Port.output(Bit)"] + (CALLBACK_PORTS if callbacks else []) + ["    def architecture(self):"] + \
             (CALLBACK_DEFS if callbacks else []) + [
              "        ctx = std.SequentialContext(std.Clock(self.clk))",
-             f"        t = std.ClockDivider(ctx, {', '.join(args)})",
-             "        std.concurrent_assign(t.get_reset_signal(), self.rst_div)",
+             f"        t = std.ClockDivider(ctx, {', '.join(args + (['require_enable=True'] if enable_api else []))})"] + \
+            (["        @ctx", "        def control():", "            if self.rst_div:", "                t.disable()", "            else:", "                t.enable()"] if enable_api else
+             ["        std.concurrent_assign(t.get_reset_signal(), self.rst_div)"]) + [
              "        @std.concurrent", "        def logic():", "            self.state <<= t.state()", "            self.rising <<= t.rising()", "            self.falling <<= t.falling()"]
     return "\n".join(lines) + "\n"
 
@@ -333,6 +351,10 @@ class DebounceMonitor(Monitor):
         self.check(D.v_eq(outs["o"], self.out, 1), "debounced output differs from the saturating-counter model")
 
 
+class ClkDivEnableMonitor(EnableApi, ClkDivMonitor):
+    RST = "rst_div"
+
+
 def jobs(tier):
     js = []
     ns = (1, 2, 3, 5) if tier == "quick" else (1, 2, 3, 4, 5, 6, 7, 8, 9, 12)
@@ -364,6 +386,13 @@ def jobs(tier):
         cb = (ratio, ds, tick) in ((3, False, False), (2, False, True), (5, True, False), (3, True, True))
         js.append((f"ClockDivider|{ratio}|default={ds}|tick_at_start={tick}" + ("|callbacks" if cb else ""), clkdiv_design(ratio, ds, tick, cb), {"rst_div": 1, "r": 3},
                    ["state", "rising", "falling"] + (["cb_r", "cb_f"] if cb else []), 2 * ratio + 5, lambda ratio=ratio, ds=ds, tick=tick, cb=cb: ClkDivMonitor(ratio, ds, tick, cb)))
+    # enable() / disable() from another process, require_enable=True (generation starts only after the first enable())
+    for (f, s2), ds, fs in (((2, 1), False, False), ((1, 2), True, False), ((2, 2), False, True)):
+        js.append((f"ToggleSignal|enable-api|{f}|{s2}|default={ds}|first={fs}", toggle_design(f, s2, ds, fs, False, True), {"rst_toggle": 1}, ["state", "rising", "falling"], 2 * (f + s2) + 6,
+                   lambda f=f, s2=s2, ds=ds, fs=fs: ToggleEnableMonitor(f, s2, ds, fs)))
+    for ratio, ds, tick in ((3, False, False), (2, True, False), (3, False, True), (5, True, True)):
+        js.append((f"ClockDivider|enable-api|{ratio}|default={ds}|tick_at_start={tick}", clkdiv_design(ratio, ds, tick, False, False, True), {"rst_div": 1, "r": 3}, ["state", "rising", "falling"], 2 * ratio + 6,
+                   lambda ratio=ratio, ds=ds, tick=tick: ClkDivEnableMonitor(ratio, ds, tick, False)))
     for ds in (False, True):
         js.append((f"ClockDivider|runtime ratio|default={ds}", clkdiv_design(None, ds, False, False, True), {"rst_div": 1, "r": 3}, ["state", "rising", "falling"], 14 if tier == "quick" else 22,
                    lambda ds=ds: ClkDivMonitor(None, ds, False, False, True)))
@@ -413,7 +442,7 @@ def run(tier: str) -> int:
         rep.stats.units |= {"cohdl.std.utility.wait_for / Waiter.wait_for / tick", "DelayLine / delayed", "continuous_counter", "ToggleSignal (incl. on_rising / on_falling callbacks)", "ClockDivider", "debounce"}
         rep.assumptions += ["BMC from power-up, depth K >= 2*period+4 per design; inputs (start, reset, enable, data, run-time duration) symbolic at every clock",
                             "run-time duration >= 1 unless allow_zero (documented precondition)",
-                            "Duration (float) arguments are not covered (Duration.count_periods is floating point); ClockDivider with constant integer ratios only (reference = upstream MockClkDivider), require_enable=False",
+                            "Duration (float) arguments are not covered (Duration.count_periods is floating point); ClockDivider with integer ratios (reference = upstream MockClkDivider); enable() / disable() issued from a second process of the same clock",
                             "ToggleSignal reference = upstream ToggleMock (ghdl-validated test bench), first sample after power-up skipped"]
         return rep.finish({
             "states": states, "transitions": transitions, "traces_validated_against_impl": rep.stats.extra.get("traces_validated", 0),
